@@ -2,7 +2,7 @@
 """C01 -- NDEF write then read round-trips on every tag type and layout (structural clauses)."""
 import ast
 
-from ..model import norm, head, walk_no_nested, AnalysisError, FuncInfo, ClassInfo, enclosing_stmt, ancestors
+from ..model import norm, head, walk_no_nested, AnalysisError, FuncInfo, ClassInfo, enclosing_stmt, ancestors, live
 from ..cfg import cfg_of
 from ..resolve import Resolver, Ctx
 from ..q import (find, match, const, try_const, only_via, tests, stmt_nodes, one, fmt, cfg_node_for, linear, calls,
@@ -59,12 +59,12 @@ def rule_gate(report, prog):
     # nothing before the gates can reach the tag: calls before the write are bytearray()/len()/capacity only
     before = [c for c in calls(f.node) if cfg_node_for(cfg, c) is not None and cfg_node_for(cfg, c) is not w[0]
               and w[0] in cfg.reachable(cfg_node_for(cfg, c))]
-    names = sorted(set(norm(c.func) for c in before))
+    names = sorted(set(norm(c.func) for c in before if not norm(c.func).startswith(('log.', 'self.log.'))))
     report.check(set(names) <= {'bytearray', 'len', 'AttributeError', 'ValueError'}, 'C01-R1',
                  key(f.qname, 'no command can be sent before the gates'), f.loc(), 'calls before the write: %s' % names)
     for c in ndef_classes(prog):
         g = prog.lookup(c, 'capacity')
-        okk = isinstance(g, FuncInfo) and g.kind == 'property' and [norm(s) for s in g.node.body if not (isinstance(s, ast.Expr) and isinstance(s.value, ast.Constant))] == ['return self._capacity']
+        okk = isinstance(g, FuncInfo) and g.kind == 'property' and [norm(s) for s in live(g.node.body) if not (isinstance(s, ast.Expr) and isinstance(s.value, ast.Constant))] == ['return self._capacity']
         report.check(okk, 'C01-R1', key(c.qname, 'capacity is a plain attribute read (no tag command)'), g.loc() if isinstance(g, FuncInfo) else c.qname,
                      'NDEF.capacity of %s does more than return self._capacity' % c.qname)
 
@@ -259,7 +259,7 @@ def rule_partition(report, prog):
     okk = False
     for l in walk_no_nested(rd.node):
         if isinstance(l, ast.While) and norm(l.test) == 'len(data) < nlen':
-            body = [norm(s) for s in l.body if not isinstance(s, ast.If)]
+            body = [norm(s) for s in live(l.body) if not isinstance(s, ast.If)]
             okk = body in (['offset = self._nlen_size + len(data)', 'data += self._read_binary(offset, nlen - len(data))'],
                            ['offset = self._nlen_size + len(data)', 'part = self._read_binary(offset, nlen - len(data))', 'data += part'])
     n += 1
@@ -268,7 +268,7 @@ def rule_partition(report, prog):
     for fn in ('_write_ndef_data', '_wipe_ndef_data'):
         f = prog.func('nfc.tag.tt4.Type4Tag.NDEF.' + fn)
         n += 1
-        okk = any(isinstance(l, ast.While) and [norm(s) for s in l.body] == ['offset += self._update_binary(offset, data[offset:])']
+        okk = any(isinstance(l, ast.While) and [norm(s) for s in live(l.body)] == ['offset += self._update_binary(offset, data[offset:])']
                   for l in walk_no_nested(f.node))
         report.check(okk, 'C01-R4', key(f.qname, 'next chunk starts where the previous one ended'), f.loc(),
                      'Type 4 write loop no longer advances by the chunk it wrote')
